@@ -263,6 +263,9 @@ func raceSigs(stderr string) []string {
 				if i := strings.LastIndex(f, "("); i > 0 && strings.HasSuffix(f, ")") {
 					f = f[:i]
 				}
+				if strings.Contains(part, "Zeno/internal/verif/") {
+					f += " [called by the harness]" // the access is made on a harness goroutine through Zeno's API
+				}
 				frames = append(frames, f)
 				break
 			}
@@ -338,10 +341,9 @@ func absorb(r interface {
 	return &rep
 }
 
-
 // discardSink lets a check absorb a child's report without adopting its violations.
 type discardSink struct{}
 
 func (*discardSink) Violation(sig, what string, witness any) {}
-func (*discardSink) Inconclusive(why string)                {}
-func (*discardSink) Note(format string, a ...any)           {}
+func (*discardSink) Inconclusive(why string)                 {}
+func (*discardSink) Note(format string, a ...any)            {}
